@@ -238,6 +238,7 @@ namespace
         std::map<std::string, uint32_t> index;
         std::vector<std::string> archs_run, archs_skipped;
         uint64_t max_ops = 30;
+        bool cvt_values = true; // judge lane values of converting forms (off in the -ffast-math build: the conversion arithmetic is not C04's subject)
         std::string only_arch;
 
         static std::string key(const OpEntry& e) { return std::string(e.arch) + "|" + e.tname + "|" + e.form; }
@@ -300,6 +301,7 @@ namespace
         {
             max_ops = p.u64("max_ops", 30);
             only_arch = p.str("only_arch", "");
+            cvt_values = p.u64("cvt_values", 1) != 0;
         }
         uint64_t shrink_budget() const { return 1500; }
 
@@ -1013,7 +1015,7 @@ namespace
                     break;
                 case K_CCVT_LOAD:
                     ++cl_cvt;
-                    for (int i = 0; i < e.lanes; ++i)
+                    for (int i = 0; cvt_values && i < e.lanes; ++i)
                     {
                         bool e1, e2, e3, e4;
                         long re = dec(reg_real_t, reg_out + (size_t)i * e.elem, e1), im = dec(reg_real_t, reg_out + rb + (size_t)i * e.elem, e2);
@@ -1027,6 +1029,11 @@ namespace
                     break;
                 case K_CCVT_STORE:
                     ++cl_cvt;
+                    if (!cvt_values)
+                    {
+                        memcpy(g_mem.shadow + woff, g_mem.data + woff, wbytes); // footprint only: whatever was written inside the window is accepted
+                        break;
+                    }
                     for (int i = 0; i < e.lanes; ++i)
                     {
                         bool ex;
@@ -1037,7 +1044,7 @@ namespace
                 case K_CVT_LOAD:
                 case K_CVT_GATHER:
                     e.kind == K_CVT_LOAD ? ++cl_cvt : ++cl_cvtgs;
-                    for (int i = 0; i < e.lanes; ++i)
+                    for (int i = 0; cvt_values && i < e.lanes; ++i)
                     {
                         size_t k = e.kind == K_CVT_LOAD ? (size_t)i : (size_t)(op.idx[(size_t)i] - lo);
                         bool ex1, ex2;
@@ -1057,6 +1064,11 @@ namespace
                     for (int i = 0; i < e.lanes; ++i)
                     {
                         size_t k = e.kind == K_CVT_STORE ? (size_t)i : (size_t)(op.idx[(size_t)i] - lo);
+                        if (!cvt_values)
+                        {
+                            memcpy(g_mem.shadow + woff + k * eb, g_mem.data + woff + k * eb, eb); // footprint only: the indexed element may hold any value
+                            continue;
+                        }
                         bool ex;
                         enc(e.mem_tname, dec(e.tname, reg_in + (size_t)i * e.elem, ex), g_mem.shadow + woff + k * eb);
                     }
